@@ -1,3 +1,6 @@
 SPECIFICATION TraceSpec
 POSTCONDITION TraceAccepted
+CONSTANTS
+  DevUninitOverlayHidesFlip = TRUE
+  DevJsbNrUsersClearsV2 = TRUE
 CHECK_DEADLOCK FALSE
